@@ -371,6 +371,51 @@ def h_input_experiments(mode):
     return fn
 
 
+def h_combined_table(n_samples):
+    """combine_table over n experiments: the per-experiment count files carry SENTINEL numbers (symbolic values rendered as unique
+    numerals), pandas merges them as opaque numbers, and the combined table is parsed back: the column of every experiment holds
+    that experiment's own value for every feature it reported, and nothing else"""
+    import src.stats as stats
+    feats = ["F1", "F2", "F3"]
+
+    def fn(g):
+        shims.CURRENT["g"] = g if g.symbolic else None
+        d = os.path.join(scratch(), "combine%d" % n_samples)
+        shutil.rmtree(d, ignore_errors=True)
+        os.makedirs(d)
+        samples, vals = [], []
+        for i in range(n_samples):
+            mask = g.choice("sample%d_features" % i, 8)
+            v = {}
+            path = os.path.join(d, "s%d_counts.tsv" % i)
+            with open(path, "w") as fh:
+                fh.write("#feature_id\tcount\n")
+                for j, f in enumerate(feats):
+                    if mask >> j & 1:
+                        v[f] = g.real("sample%d_%s" % (i, f), 0)
+                        fh.write("%s\t%.2f\n" % (f, v[f]))
+                for stat in ("__ambiguous", "__no_feature", "__not_aligned"):
+                    fh.write("%s\t%d\n" % (stat, 0))
+            samples.append(Obj(prefix="exp%d" % i, path=path))
+            vals.append(v)
+        call(g, stats.combine_table, Obj(samples=samples), d, lambda smp: smp.path, "combined.tsv")
+        lines = open(os.path.join(d, "combined.tsv")).read().splitlines()
+        header = lines[0].split("\t")
+        g.check(header == ["#feature_id"] + [smp.prefix for smp in samples], "one column per experiment, in order", detail={"header": header})
+        rows = {l.split("\t")[0]: l.split("\t")[1:] for l in lines[1:]}
+        g.check(sorted(rows) == sorted({f for v in vals for f in v}), "one row per feature reported by some experiment", detail={"rows": sorted(rows)})
+        if header != ["#feature_id"] + [smp.prefix for smp in samples]:
+            return
+        for f, cells in rows.items():
+            for i, cell in enumerate(cells):
+                if f in vals[i]:
+                    g.check(cell != "" and g.unsentinel_real(cell) == vals[i][f], "the column of an experiment holds that experiment's own count",
+                            detail={"feature": f, "experiment": i, "cell": cell})
+                else:
+                    g.check(cell == "", "an experiment that did not report a feature has an empty cell", detail={"feature": f, "experiment": i, "cell": cell})
+    return fn
+
+
 def instances(tier, seed):
     q = tier == "quick"
     G = "src.graph_based_model_construction:GraphBasedModelConstructor."
@@ -386,6 +431,9 @@ def instances(tier, seed):
                                                                      "src.dataset_processor:set_polya_requirement_strategy"],
                         "two experiments with symbolic assignment totals, polyA counts and unmapped reads; every --polya_requirement and preset flag",
                         weight=40, budget_s=900))
+    for n in ((2, 3) if q else (2, 3, 4)):
+        out.append(Instance("combined_table[experiments=%d]" % n, h_combined_table(n), ["src.stats:combine_table", "src.stats:transform_counts"],
+                            "%d experiments x 3 features, any subset reported, symbolic counts (sentinel numerals through pandas)" % n, weight=8 ** n, budget_s=900))
     for mode in ("yaml", "list"):
         out.append(Instance("input_experiments[%s]" % mode, h_input_experiments(mode),
                             ["src.input_data_storage:InputDataStorage.__init__", "src.input_data_storage:InputDataStorage.get_samples_from_" + ("yaml" if mode == "yaml" else "file")],
